@@ -39,7 +39,7 @@ def _is_effect_begin(ctx, sn):
     c = sn.callee
     if isinstance(c, Func):
         return ctx.E.eff.has_effect(c, EFFECTS)
-    k, _ = ctx.E.eff.classify(c, sn.call)
+    k, _ = ctx.E.eff.classify(c, sn.call, sn.func)
     return k in EFFECTS
 
 
@@ -116,7 +116,7 @@ def r15_2(ctx, rc):
     for call in ctx.prog.calls_in(reader):
         for g in ctx.prog.resolve_call(call, reader):
             if g in ('gzip.open', 'builtins.open'):
-                k, _ = eff.classify(g, call)
+                k, _ = eff.classify(g, call, reader)
                 key = 'open mode in ' + reader.qualname
                 if k in EFFECTS:
                     rc.violation(
